@@ -82,3 +82,19 @@ def find_model_counterexample(module, cfg, workdir, workers=8, timeout=900):
         raise ToolError("model checking of %s/%s failed without a property violation:\n%s" % (
             module, os.path.basename(cfg), res["out"][-2000:]))
     return v, res
+
+
+def bulk_cfg(path, procs, maxstarts, invariants, properties=()):
+    txt = "CONSTANTS\n  Procs = {%s}\n" % ", ".join("p%d" % (i + 1) for i in range(procs))
+    txt += '  Keys = {"k1", "k2"}\n  Datas = {"d1", "d2"}\n  OpSet <- MCOpsBulk\n  IsEmptyData <- MCIsEmptyB\n'
+    txt += "  MaxStarts = %d\n  AllowCrash = FALSE\n  MaxFaults = 0\n  NoFile = NoFile\n" % maxstarts
+    txt += "SPECIFICATION BSpec\n"
+    if invariants:
+        txt += "INVARIANTS " + " ".join(invariants) + "\n"
+    if properties:
+        txt += "PROPERTIES " + " ".join(properties) + "\n"
+    txt += "CHECK_DEADLOCK FALSE\n"
+    os.makedirs(os.path.dirname(path), exist_ok=True)
+    with open(path, "w") as f:
+        f.write(txt)
+    return path
